@@ -28,6 +28,7 @@ ASSUMPTIONS = [
 DECIDING = ['bp.util:BundleContainer.create_report', 'bp.agent:Agent._finish_bundle', 'bp.agent:Agent._do_fwd',
             'bp.agent:Agent.recv_bundle', 'bp.app.fragment:Fragment._create']
 REQUIRED_OBS = ['stack_report_obligations', 'combinations', 'reports_expected', 'reports_checked', 'no_report_expected', 'forwards_sent_as_fragments']
+RULE = RULE + " Whole-stack runs (vf.stack): three hosts X-Y-Z, each a real BP agent bound through bp/cla.py and the in-process bus to real UDPCL/TCPCL agents over the simulated network (datagrams reordered and duplicated, BP and UDPCL MTUs, 2-14 bundles with report requests per scenario); judged per node, conditional on what the node's adaptor popped and what the agent handed to the adaptor's sender; the stack_* counters say what was compared."
 
 NODE = 'dtn://me/'
 OUTCOMES = ['deliver', 'deliver-admin', 'forward', 'forward-frag', 'delete', 'no-route', 'security', 'duplicate', 'forward-fail', 'forward-frag-fail', 'security-bcb',
